@@ -65,7 +65,7 @@ contract(
         "self.regex is None or (self.regex.pattern == rules['regex'] "
         "                       and self.regex.flags == ((2 if self.ignore_case else 0) | 32))",
     ],
-    modifies=["self.regex", "self.select_keys", "self.ignore_case", "alloc"], raises=[],
+    modifies=["self.regex", "self.select_keys", "self.ignore_case", "alloc"], writes_fresh=["re.Pattern.pattern", "re.Pattern.flags"], raises=[],
 )
 
 
@@ -152,7 +152,7 @@ contract(
         "    for m in range(len(classes)))",
     ],
     internal_ensures=[3, 4, 5, 6, 7, 8, 9, 10, 11, 12],
-    modifies=["e.data", "alloc"], writes_fresh=["List.len", "List.items"], raises=[],
+    modifies=["e.data[]", "alloc"], writes_fresh=["List.len", "List.items"], raises=[],
 )
 
 contract(
@@ -171,7 +171,7 @@ contract(
         "all(not old(cls_match(classes, m, e)) or (0 <= filter_pos(last_filter())[m] and filter_pos(last_filter())[m] < len(last_filter())"
         "    and filter_sel(last_filter())[filter_pos(last_filter())[m]] == m) for m in range(len(classes)))",
     ],
-    modifies=["e.data", "alloc"], writes_fresh=["List.len", "List.items"], raises=[],
+    modifies=["e.data[]", "alloc"], writes_fresh=["List.len", "List.items"], raises=[],
 )
 
 
@@ -206,7 +206,7 @@ contract(
         "                for m2 in range(m + 1, len(classes))) for m in range(len(classes)))"
         "    for i in range(len(events)))",
     ],
-    modifies=["alloc", "Dict.map"], raises=[],
+    modifies=["alloc", "Dict.map"], writes_fresh=["*"], raises=[],
 )
 
 contract(
@@ -219,7 +219,7 @@ contract(
         "all(dict_without(events[i].data, '$tags') == old(dict_without(events[i].data, '$tags')) and '$tags' in events[i].data"
         "    for i in range(len(events)))",
     ],
-    modifies=["alloc", "Dict.map"], raises=[],
+    modifies=["alloc", "Dict.map"], writes_fresh=["*"], raises=[],
 )
 
 from pyvc.api import CONTRACTS
@@ -254,7 +254,7 @@ contract(
         "    and events[i].id == old(events[i].id) for i in range(len(events)))",
         "all(" + DONE_URL + " for i in range(len(events)))",
     ],
-    modifies=["Dict.map"], raises=[],
+    modifies=["alloc", "Dict.map"], writes_fresh=["*"], raises=[],
     loops={0: dict(index="k",
         hints=["all(events[i].data is not events[prev(k)].data for i in range(len(events)) if i != prev(k))"],
         invariant=[
@@ -280,9 +280,10 @@ contract(
         "len(events) == old(len(events)) and all(events[i] is old(events[i]) and events[i].data == old(events[i].data)"
         "    and events[i].timestamp == old(events[i].timestamp) and events[i].duration == old(events[i].duration) for i in range(len(events)))",
     ],
-    modifies=["alloc"], raises=[],
+    modifies=["alloc"], writes_fresh=["*"], raises=[],
     loops={0: dict(index="k", invariant=[
         "all(old(events[i]).data == old(events[i].data) for i in range(old(len(events))))",
+        "old_objects_unchanged('Dict.map') and all(fresh(C0[i]) and fresh(C0[i].data) for i in range(len(C0)))",
         "all(dict_without(C0[i].data, key) == dict_without(old(events[i].data), key) and key in C0[i].data"
         "    and isinstance(C0[i].data[key], str) for i in range(len(C0)))",
     ])},
